@@ -29,6 +29,11 @@ func TestWorker(t *testing.T) {
 	c := core.FromEnv()
 	c.ArmDeadline()
 	debug.SetGCPercent(200)
+	cpuBudget, heapBudget := 8.0, uint64(512<<20)
+	if d.cpuBudget > 0 {
+		cpuBudget = d.cpuBudget
+	}
+	core.StartWatchdog(cpuBudget, heapBudget)
 
 	// Everything honeytrap prints goes to /dev/null; results travel in VF_OUT.
 	if os.Getenv("VF_KEEP_STDOUT") == "" {
